@@ -19,6 +19,7 @@ import k2m
 import lib
 import c03_probes
 import c03_producers
+import c03_teardown
 import relcases
 from props import C05, C06
 
@@ -158,6 +159,11 @@ def run(chk):
     # subscribe() and stay open, mixed with late and synchronously completing ones (harness/c03_probes.py)
     extra["probes"], s = c03_probes.family(chk, "C03", 3000 if q else 40000, rx)
     nt_extra += len(s)
+    # the subscription given up RE-ENTRANTLY from a teardown callback (finally_action / do_finally / using's resource /
+    # do_on_dispose / the probe's own dispose function / the dispose function of a timer) which the library invokes
+    # while it replaces a live subscription or timer by the next one (harness/c03_teardown.py)
+    extra["teardown"], s = c03_teardown.family(chk, "C03", 2500 if q else 40000, rx)
+    nt_extra += len(s)
     chk.cov["distinct_nontrivial"] = nt_multi + len(nt) + nt_extra
     chk.cov["input_distribution"] = {"multi_source": dist, "single_source_per_operator": per_op,
                                      "further_dispose_points": extra}
@@ -199,12 +205,31 @@ def run(chk):
                        "ends no probe and not the source has an observer left; behind the position at which dispose() "
                        "returned no notification and no user callback (spies of a probe subscribed in that very step "
                        "excepted: what a probe emits during the operator's subscribe() call is the probe's doing); in later "
-                       "steps no notification, no callback, no probe subscribed; at the end still no observer anywhere")
+                       "steps no notification, no callback, no probe subscribed; at the end still no observer anywhere.  "
+                       "`teardown` (harness/c03_teardown.py) = the operators that REPLACE a live subscription or timer by the "
+                       "next one -- the inner of map+switch_latest / switch_map[_indexed] / flat_map_latest, the duration of "
+                       "throttle_with_mapper, the timeout (and the source, replaced by the fallback) of timeout_with_mapper, the "
+                       "subscription delay and the delays of delay_with_mapper, the previous source of concat / catch / "
+                       "on_error_resume_next (operator, function, handler / factory, lazy iterable), repeat, retry, concat_map, "
+                       "merge(max_concurrent=1), the closing observable of window_when / buffer_when, the loser of amb, the gate "
+                       "of skip_until / take_until, sample's sampler, expand's inners, and the TIMERS of debounce, timeout [+ "
+                       "fallback], sample, delay, window_/buffer_with_time[_or_count], throttle_with_mapper / switch_map over "
+                       "reactivex.timer (a TestScheduler handed to the operator whose schedule_* disposables are the harness's) "
+                       "-- every probe (source included) carrying a teardown callback as finally_action / do_finally / "
+                       "reactivex.using resource / do_on_dispose / the probe's own dispose function (before or after it drops its "
+                       "observer) / the timer's dispose function; the k-th teardown callback that the library invokes during the "
+                       "script of an undisturbed run (k uniform) gives the subscription up RE-ENTRANTLY: subscription.dispose() "
+                       "(2/3) or an element pushed into the `other` of an appended take_until (1/3).  Judged as in `probes`, plus: "
+                       "no timer armed by the pipeline is still armed when that step ends, none is armed or runs in a later "
+                       "step; teardown callbacks themselves are never counted as user callbacks; non-trivial = the subscription "
+                       "was given up inside a teardown callback and the oracle held")
     return chk.finish(trusted_extra=["runner assumption: an operator's disposable holds every subscription/timer it "
                                      "opened (Ops/Multi.v) -- this run compares unsubscribe instants operator by "
                                      "operator", "harness/k2m.py, harness/k2.py drivers",
                                      "harness/c03_probes.py (oracle-only family; hand-made probe observables, their "
                                      "observer lists are the harness's own bookkeeping)",
+                                     "harness/c03_teardown.py (oracle-only family; probes as in c03_probes.py, timers "
+                                     "observed through a TestScheduler subclass that wraps the disposables of schedule_absolute)",
                                      "harness/relcases.py (oracle-only families; the in-callback dispose is NOT compared "
                                      "with the machines: the runner has no input for a dispose in the middle of a step)"],
                       assumptions=["group/window observables handed to the subscriber (ref-counted release) are "
@@ -216,6 +241,8 @@ def replay(chk, path):
     d = json.load(open(path))
     if c03_producers.is_replay(d):
         return c03_producers.replay_main("C03", path)
+    if c03_teardown.is_replay(d):
+        return c03_teardown.replay_main("C03", path)
     if c03_probes.is_replay(d):
         return c03_probes.replay_main("C03", path)
     if relcases.is_replay(d):
